@@ -1,5 +1,12 @@
 import LunaVerif.Lemmas.C46View
 import LunaVerif.Lemmas.C46Buf
+/-!
+# C46 — observers (host, producer), environment and the invariant of `ss_in_exactly_once`
+
+`Ghost` is computed from the interface signals only (`gnext : In → Out → …`).  `Inv` is the inductive invariant
+over the toggle-free view of the endpoint (`Lemmas/C46View.lean`) and the observers; its last field `data` is the
+statement of the theorem.  `write_side` is the buffer-abstraction step for one accepted stream word.
+-/
 namespace LunaVerif.SSStreamIn
 
 /-! ## The observers: host and producer (ghost state, computed from the interface signals only) -/
@@ -60,6 +67,7 @@ structure Inv (c : Config) (v : View) (g : Ghost) : Prop where
   lenR : v.memR.length = c.mps / 4
   fillW_le : v.fillW ≤ c.mps
   fillW_al : v.endedW = false → v.fillW % 4 = 0
+  endW : v.endedW = true → 1 ≤ v.fillW
   fillR_le : v.fillR ≤ c.mps
   wd : v.fsm = .waitData → v.fillR = 0
   idle : v.fsm = .waitData ∨ v.fsm = .reqIn ∨ v.fsm = .waitSend →
@@ -86,21 +94,25 @@ theorem validBytes_prod (i : In) (h : ProdOK i) :
   rcases h with h | h | ⟨h | h | h, hl⟩ <;> simp_all [validBytes]
 
 theorem write_side (c : Config) (v : View) (i : In) (hc : CfgOK c) (lenW : v.memW.length = c.mps / 4)
-    (hle : v.fillW ≤ c.mps) (hal : v.endedW = false → v.fillW % 4 = 0) (hp : ProdOK i) :
+    (hle : v.fillW ≤ c.mps) (hal : v.endedW = false → v.fillW % 4 = 0) (hen : v.endedW = true → 1 ≤ v.fillW)
+    (hp : ProdOK i) :
     (wMem c v i).length = c.mps / 4 ∧ wFill c v i ≤ c.mps ∧
-      (wEnded c v i = false → wFill c v i % 4 = 0) ∧
+      (wEnded c v i = false → wFill c v i % 4 = 0) ∧ (wEnded c v i = true → 1 ≤ wFill c v i) ∧
+      (wen c v i = true → 1 ≤ wFill c v i) ∧
       bufBytes (wMem c v i) (wFill c v i) = bufBytes v.memW v.fillW ++
         (if wen c v i then bytesOf (validBytes i.sValid) i.sData else []) := by
   obtain ⟨hv4, hvl, hv1⟩ := validBytes_prod i hp
   obtain ⟨hm4, hm8, _⟩ := hc
   cases hw : wen c v i
-  · simp [wMem, wFill, wEnded, hw, lenW, hle]; exact hal
+  · simp [wMem, wFill, wEnded, hw, lenW, hle]; exact ⟨hal, hen⟩
   · have hw' := hw
     simp only [wen, vinReady, Bool.and_eq_true, bne_iff_ne, ne_eq, decide_eq_true_eq,
       Bool.not_eq_true'] at hw'
     obtain ⟨hnz, hroom, hne⟩ := hw'
     have h4 := hal hne
-    refine ⟨by simp [wMem, hw, lenW], by simp only [wFill, hw, if_true]; omega, ?_, ?_⟩
+    have h1 := hv1 hnz
+    refine ⟨by simp [wMem, hw, lenW], by simp only [wFill, hw, if_true]; omega, ?_,
+      fun _ => by simp only [wFill, hw, if_true]; omega, fun _ => by simp only [wFill, hw, if_true]; omega, ?_⟩
     · simp only [wEnded, wFill, hw, Bool.and_true, if_true]
       intro he
       have : i.sLast = false := by cases hl : i.sLast <;> simp_all
